@@ -151,6 +151,8 @@ class TraitSpec:
         self.is_unsafe = False
         self.generic = False          # trait Tr<G: Clone + Debug>
         self.const_pos = None         # None | "before" | "after": a const generic parameter N before / after G (or alone)
+        self.lt_param = False         # a lifetime parameter `'t` on the trait
+        self.defaults = False         # `G: .. = i32`, `const KN: usize = 3`
         self.supers = []
         self.trailing_plus = False    # `trait Tr: A + B + {` (legal; what `$($sup +)*` in a macro_rules body produces)
         self.where = []
@@ -161,13 +163,16 @@ class TraitSpec:
     def generics_text(self):
         g = "G: ::core::clone::Clone + ::core::fmt::Debug + ::core::marker::Send + ::core::marker::Sync + 'static" if self.generic else None
         c = "const KN: usize" if self.const_pos else None
-        items = [x for x in ([c, g] if self.const_pos == "before" else [g, c]) if x]
+        if self.defaults:
+            g = (g + " = i32") if g else None
+            c = (c + " = 3") if c else None
+        items = (["'t"] if self.lt_param else []) + [x for x in ([c, g] if self.const_pos == "before" else [g, c]) if x]
         return ("<" + ", ".join(items) + ">") if items else ""
 
     def args_text(self):
         g = "i32" if self.generic else None
         c = "3" if self.const_pos else None
-        items = [x for x in ([c, g] if self.const_pos == "before" else [g, c]) if x]
+        items = (["'static"] if self.lt_param else []) + [x for x in ([c, g] if self.const_pos == "before" else [g, c]) if x]
         return ("<" + ", ".join(items) + ">") if items else ""
 
     def source(self):
@@ -199,6 +204,11 @@ def random_trait(rng, name="Tr", dyn_safe=False, allow_async=True, with_async_tr
     t.generic = allow_generic_trait and rng.random() < 0.25
     if allow_generic_trait and rng.random() < 0.2:
         t.const_pos = rng.choice(["before", "after"])
+    if allow_generic_trait and not dyn_safe and rng.random() < 0.15:
+        # (not for `dyn Tr<'t>` selectors: with the `'static` supertrait they need, `'t: 'static` would have to hold)
+        t.lt_param = True
+    if allow_generic_trait and (t.generic or t.const_pos) and rng.random() < 0.3:
+        t.defaults = True
     if with_async_trait:
         t.async_trait = rng.choice(["#[::async_trait::async_trait]", "#[async_trait::async_trait]", "#[::async_trait::async_trait(?Send)]"])
     n = nmethods or rng.randint(1, 4)
